@@ -1,1 +1,2 @@
 import Dalek.Props.C13.Batch
+import Dalek.Props.C08.HashInputs
